@@ -25,9 +25,9 @@ META = {
 }
 
 QUICK = dict(model='C11_quick.cfg', export='C11_export_quick.cfg', export_inf='C11_export_inf.cfg',
-             sweep_max=24, resume_max=12, next_max=2, random=3, law_chunks=6)
+             sweep_max=16, resume_max=10, next_max=2, random=2, law_chunks=6)
 THOROUGH = dict(model='C11_thorough.cfg', export='C11_export_thorough.cfg', export_inf='C11_export_inf.cfg',
-                sweep_max=200, resume_max=60, next_max=6, random=8, law_chunks=12)
+                sweep_max=60, resume_max=40, next_max=4, random=6, law_chunks=12)
 
 
 def _weight(e):
